@@ -3,3 +3,4 @@ set -e
 cd /verif
 ./mkoverlay.sh c04
 go build -tags verif -overlay build/c04.overlay.json -o "$1" ./h/c04
+/verif/h/c04s/build.sh /verif/build/c04s
